@@ -392,6 +392,10 @@ func (g *gen) probesFor(pat string) []string {
 	var out []string
 	// the exact candidates first, then a sample of the cross product
 	out = append(out, scheme+"://"+hosts[0]+ports[0])
+	if strings.Contains(pat, "*") {
+		// the text of a wildcard pattern is not an origin it denotes (a fast path comparing strings would say otherwise)
+		out = append(out, pat, scheme+"://"+base+port)
+	}
 	if wild {
 		// arbitrary-subdomain patterns match names of any length: only the length cap of origins.Parse
 		// (maxSchemeLen + 3 + maxHostPortLen + 1 = 327 bytes) stands between them and an over-long origin.
@@ -416,10 +420,14 @@ func (g *gen) probesFor(pat string) []string {
 
 var methodPool = []string{"GET", "POST", "HEAD", "PUT", "put", "Put", "DELETE", "delete", "PATCH", "patch", "OPTIONS", "options",
 	"QUERY", "PURGE", "purge", "CHICKEN", "get", "post", "M-SEARCH"}
-var badMethodPool = []string{"TRAC\u212a", "trac\u212a", "CONNECT", "connect", "TRACE", "trace", "TRACK", "tRaCk", "", "bad method", "résumé", "a,b", "(", "GET "}
+var badMethodPool = []string{"TRAC\u212a", "trac\u212a",
+	// what Unicode upper-casing (not byte-upper-casing) turns into a method Fetch normalises: U+017F, U+0131
+	"po\u017ft", "PO\u017fT", "opt\u0131ons", "OPTION\u017f", "delet\u0113", "he\u00e4d", "CONNECT", "connect", "TRACE", "trace", "TRACK", "tRaCk", "", "bad method", "résumé", "a,b", "(", "GET "}
 
 var reqHdrPool = []string{"Authorization", "authorization", "AUTHORIZATION", "X-Foo", "x-foo", "X-FOO", "Content-Type", "content-type",
-	"X-Bar", "Accept", "X-Requested-With", "x-api-key", "Foo", "Foo-Bar", "a", "zz-top", "Cache-Control", "If-None-Match"}
+	"X-Bar", "Accept", "X-Requested-With", "x-api-key", "Foo", "Foo-Bar", "a", "zz-top", "Cache-Control", "If-None-Match",
+	// token bytes between 'Z' and 'a' (and other symbols) after an upper-case letter: byte-lowercasing must leave them alone
+	"X_Request_Id", "x_request_id", "Foo^Bar", "A`b", "X|Y~z!", "Trace_ID", "_A_", "A.B", "A+b*C"}
 var badReqHdrPool = []string{"", "bad name", "Sec-Foo", "sec-", "Sec-", "PROXY-", "sec-a b", "Sec-\x00", "proxy-é", "Proxy-a,b", "sec- ",
 	// what Unicode case mapping (not byte-lowercasing) would take for special names: U+0130, U+212A, U+017F
 	"Author\u0130zation", "author\u0131zation", "Coo\u212aie", "\u017fec-foo", "Acce\u017f\u017f-Control-Allow-Origin", "Or\u0130gin", "V\u0130a", "sec-fetch-mode", "Proxy-Authorization", "proxy-", "Origin", "origin", "Host", "Cookie",
@@ -427,7 +435,7 @@ var badReqHdrPool = []string{"", "bad name", "Sec-Foo", "sec-", "Sec-", "PROXY-"
 	"Content-Length", "Connection", "Dnt", "Via", "résumé", "a,b", "Set-Cookie", "Access-Control-Request-Private-Network", "Cookie2", "TE", "date"}
 
 var resHdrPool = []string{"X-Foo", "x-foo", "X-Bar", "X-Response-Time", "Content-Type", "content-length", "Cache-Control", "Expires",
-	"Last-Modified", "Pragma", "Content-Language", "ETag", "Link", "Authorization", "a", "Content-Encoding"}
+	"Last-Modified", "Pragma", "Content-Language", "ETag", "Link", "Authorization", "a", "Content-Encoding", "X_Trace_Id", "Foo^Bar"}
 var badResHdrPool = []string{"", "bad name", "\u017fet-Cookie", "Set-Coo\u212aie", "Or\u0130gin", "Set-Cookie", "set-cookie2", "Origin", "Access-Control-Request-Method", "Access-Control-Request-Headers",
 	"Access-Control-Allow-Methods", "Access-Control-Allow-Headers", "Access-Control-Max-Age", "Access-Control-Allow-Private-Network",
 	"Access-Control-Request-Private-Network", "résumé", "a,b"}
@@ -516,7 +524,7 @@ func (g *gen) config(validPct int) cors.Config {
 		c.PreflightSuccessStatus = pick(g, []int{0, 0, 0, 200, 204, 299, 202, 255, 256, 257})
 	} else {
 		c.MaxAgeInSeconds = pick(g, []int{0, -1, -2, 1, 30, 86400, 86401, -100, 1 << 40, -(1 << 40)})
-		c.PreflightSuccessStatus = pick(g, []int{0, 200, 204, 299, 199, 300, -1, 456, 1 << 33, 100, 404})
+		c.PreflightSuccessStatus = pick(g, []int{0, 200, 204, 299, 199, 300, -1, 456, 1 << 33, 100, 404, 65736, 65835, 196858, -65336, 1<<32 + 204, 1<<16 + 299})
 	}
 	if single {
 		g.injectDefect(&c)
@@ -544,7 +552,7 @@ func (g *gen) injectDefect(c *cors.Config) {
 	case 6:
 		c.MaxAgeInSeconds = pick(g, []int{-2, 86401, -100, 1 << 40, -(1 << 40)})
 	case 7:
-		c.PreflightSuccessStatus = pick(g, []int{199, 300, -1, 456, 1 << 33, 100, 404, 200 + 256, 204 - 256})
+		c.PreflightSuccessStatus = pick(g, []int{199, 300, -1, 456, 1 << 33, 100, 404, 200 + 256, 204 - 256, 200 + 65536, 299 + 65536, 204 + 3*65536, 204 - 65536, 1<<32 + 204, -(1 << 32) + 250})
 	case 8:
 		c.PrivateNetworkAccess, c.PrivateNetworkAccessInNoCORSModeOnly = true, true
 	default:
@@ -604,6 +612,9 @@ func (g *gen) originValue(c *cors.Config) string {
 		pat := pick(g, c.Origins)
 		if pat == "*" {
 			return pick(g, []string{"https://example.com", "http://foo.com:8080", "https://a.b.c"})
+		}
+		if strings.Contains(pat, "*") && g.p(8) {
+			return pat // the pattern text itself, wildcards included
 		}
 		ps := g.probesFor(pat)
 		if g.p(50) {
